@@ -49,6 +49,14 @@ def _actions_seen(path):
     return seen
 
 
+def _sample(path, needle, limit=900):
+    with open(path) as f:
+        for ln in f:
+            if needle in ln and len(ln) < limit:
+                return ln.strip()
+    return None
+
+
 def run(ctx):
     lib = vlib.build_lib("asan")
     rep = vlib.build_harness(lib, "c07_replay", ["c07_replay.cpp"])
@@ -60,6 +68,7 @@ def run(ctx):
         cases = os.path.join(ctx.tmp, cfg + ".cases")
         ctx.model("XmlTextSM", cfg, emit_to=cases, timeout=ctx.pick(600, 3000), xmx="10g", xss="64m", must_cover=False)
         seen |= _actions_seen(cases)
+        ctx.add_samples([x for x in (_sample(cases, '"kind":"doc"' if len(ctx.samples) == 0 else '"kind":"bad"'),) if x])
         ctx.replay(rep, cases, label="R/" + cfg, timeout=ctx.pick(900, 5400))
         os.unlink(cases)
     # design level: the decoder's state machine without the end-tag guard pops its anonymous root on "</>" - TLC finds
@@ -77,6 +86,8 @@ def run(ctx):
                 "non-document text of >= 4 bytes; distinct = distinct case lines (hash)")
     # V: random trees through encode/decode, mutated documents and random bytes through decode; TLC judges every event
     files = ctx.record(rec, ctx.pick(8, 32), ctx.pick(250, 1500), "V/XmlText")
+    if files:
+        ctx.add_samples([x for x in (_sample(files[0], '"e":"rt"', 1500),) if x])
     ctx.validate_traces("Trace_XmlText", "Trace_XmlText", files, label="V/XmlText", timeout=ctx.pick(600, 3000), xss="1g", xmx="4g")
     ctx.assumptions += [
         "exhaustive within the constants of spec/MC_XmlText_%s*.cfg; beyond them only the recorded random executions apply" % ctx.tier,
